@@ -1167,7 +1167,8 @@ where
                         // Empty block but has trailing comment on {
                         result = result.append(open_brace_trivia.clone());
                     }
-                    result = result.append(allocator.text("}"));
+                    // the closing brace keeps the comments attached to it
+                    result = result.append(emit_token_with_trivia(*token_index, ctx, allocator));
                     in_body = false;
                     continue;
                 }
